@@ -674,24 +674,10 @@ func (ea *errAnalysis) runE3(rule string, only func(fn *ssa.Function) bool) {
 // isNilOrUnknownSuccess: the returned error operand may be nil (constant nil,
 // or a value not known to be non-nil).
 func isNilOrUnknownSuccess(v ssa.Value) bool {
-	v = stripTrivial(v)
-	if isNilConst(v) {
-		return true
-	}
-	switch t := v.(type) {
-	case *ssa.Call:
-		// result of another call (e.g. `return itr.Error()` handled before; `return fn()`): unknown → not a definite success
-		_ = t
-		return false
-	case *ssa.Phi:
-		for _, e := range t.Edges {
-			if isNilOrUnknownSuccess(e) {
-				return true
-			}
-		}
-		return false
-	}
-	return false
+	// anything not known to be non-nil may be a success: in particular the
+	// result of another call (`return prevIter.Error()` says nothing about
+	// curIter).
+	return true
 }
 
 func describeRecv(l *Loaded, v ssa.Value) string {
@@ -974,7 +960,7 @@ func (ea *errAnalysis) e3Captured(rule string, fn *ssa.Function, fv *ssa.FreeVar
 			return true
 		}
 		if r, ok := x.(*ssa.Return); ok {
-			if !isRecoverReturn(r) && isNilOrUnknownSuccess(retVal(r, errIdx)) && bad == nil {
+			if !isRecoverReturn(r) && errNilness(retVal(r, errIdx), r.Block(), 0) <= 0 && bad == nil {
 				bad = r
 			}
 			return true
